@@ -518,7 +518,7 @@ fn big_names() -> Vec<Vec<u8>> {
 }
 impl Space for BigTables {
     fn name(&self) -> String {
-        format!("{} with 300 names (duplicates, empty, >= 0x80 bytes, names of every length 1..=17 ending in 01 / 7f / 80 / ff): nbucket in {{1,7,64,300}} x bloom words {{1,16,64}} x symoffset {{1,17}} x 4 encodings; 300 present + 40 absent lookups each", if self.gnu { ".gnu.hash" } else { ".hash" })
+        format!("{} with 300 names (duplicates, empty, >= 0x80 bytes, names of every length 1..=17 ending in 01 / 7f / 80 / ff; st_info over all 256 values, every st_other visibility, reserved st_shndx values): nbucket in {{1,7,64,300}} x bloom words {{1,16,64}} x symoffset {{1,17}} x 4 encodings; 300 present + 40 absent lookups each", if self.gnu { ".gnu.hash" } else { ".hash" })
     }
     fn size(&self) -> u64 {
         4 * 4 * 3 * 2 + 4
@@ -570,7 +570,21 @@ impl Space for BigTables {
             return;
         }
         let u = big_names();
-        let b = build_table(self.gnu, enc, &u, u64::MAX, so, nbucket, bloom, 6);
+        let mut b = build_table(self.gnu, enc, &u, u64::MAX, so, nbucket, bloom, 6);
+        // symbol attributes play no part in a lookup: st_info runs through all 256 values (every
+        // type x binding), st_other through all visibilities, st_shndx through reserved indexes
+        {
+            let l = refmodel::layout::layout(refmodel::layout::Kind::Sym, enc.class);
+            let f = |n: &str| l.fields[refmodel::layout::field_index(refmodel::layout::Kind::Sym, enc.class, n)].off;
+            let (o_info, o_other, o_shndx) = (f("st_info"), f("st_other"), f("st_shndx"));
+            for i in 1..b.names.len() {
+                let base = i * l.size;
+                b.symtab[base + o_info] = (i as u32 * 53 % 256) as u8;
+                b.symtab[base + o_other] = (i % 8) as u8;
+                let shndx: u16 = [1u16, 0, 0xfff1, 0xfff2, 0xffff, 0xff00, 7][i % 7];
+                refmodel::layout::put(&mut b.symtab, base + o_shndx, 2, enc.order, shndx as u64);
+            }
+        }
         let who = if self.gnu { "GnuHashTable::find" } else { "SysVHashTable::find" };
         let mut qs = u.clone();
         for i in 0..40u32 {
